@@ -41,6 +41,7 @@ META = {
 
 SYN_RB = "x * %logic=common.default_instead_undo\ny *\nb *\n    x * %logic=common.default_instead_undo\n"
 SYN_MUT = "z * %logic=c20synth.mutating\ny *\nb *\n    z * %logic=c20synth.mutating\n"
+J_ACL = "system\n    ntp\n        server ~\nprotocols\n    bgp\n        ~ %global\n"
 ACL1 = "interface *\n    description\n    mtu\nsysname\n"
 
 JOBS = [
@@ -87,6 +88,13 @@ JOBS = [
     # logic that writes to its rule argument, top level and nested, in place (comments shown)
     ("cisco", SYN_MUT, {"z 1": {}, "z 2 v": {}, "y 1": {}}, {"z 2 w": {}, "y 1": {}}, None, True),
     ("cisco", SYN_MUT, {"y 1": {}, "b 1": {"z 1": {}}}, {"y 2": {}, "b 1": {}}, None, True),
+    # one nested ACL text compiled for a second vendor (ACL1 is also used by the huawei jobs above)
+    ("cisco", None, {"interface GigabitEthernet1": {"description a": {}, "mtu 9000": {}}, "hostname r": {}},
+     {"interface GigabitEthernet1": {"description b": {}}, "hostname r": {}}, ACL1, False),
+    # vendors sharing the negation word (delete): the same ACL text for ribbon and juniper; only juniper reads `inactive:` marks
+    ("ribbon", None, {"system": {"ntp": {"server 10.0.0.1": {}}}}, {"system": {"ntp": {"server 10.0.0.2": {}}}}, J_ACL, False),
+    ("juniper", None, {"system": {"ntp": {"server 10.0.0.2": {}, "inactive: server 10.0.0.3": {}}}, "protocols": {"bgp": {"inactive: group PEERS": {"type external": {}}}}},
+     {"system": {"ntp": {"server 10.0.0.2": {}, "server 10.0.0.3": {}}}, "protocols": {"bgp": {"inactive: group PEERS": {"type external": {}}}}}, J_ACL, False),
     # the only shipped rulebook with top-level %context rows
     ("aruba", None, {"hostname a": {}}, {"hostname b": {}, "wlan ssid-profile x": {"essid x": {}}}, None, False),
 ]
@@ -99,7 +107,9 @@ def clear_caches():
     for fn in (syntax.compile_row_regexp, acl.compile_acl_text, acl.compile_ref_acl_text, acl._make_reverse,
                ordering.compile_ordering_text, rpatching.compile_patching_text, rpatching._make_reverse,
                rdeploy.compile_deploying_text, rcommon.import_rulebook_function, adeploy._simplify_text):
-        fn.cache_clear()
+        # a function that is no longer an lru_cache wrapper keeps whatever state it has: the history then simply is longer
+        if hasattr(fn, "cache_clear"):
+            fn.cache_clear()
     rulebook_provider_connector._cache = None
 
 
